@@ -2,11 +2,12 @@
 """Behaviour-preserving (or strictly more conservative) rewrites: every check must stay silent (no VIOLATION;
 INCONCLUSIVE is reported separately). s10 is 'more conservative': it may alarm precision properties (C03) only."""
 import json, subprocess, os, re, sys
-ROOT = "/verif"
+ROOT = os.path.dirname(os.path.dirname(os.path.abspath(__file__)))
+REPO = os.environ.get("VERIF_REPO", "/repo")
 for v in json.load(open(ROOT + "/selftest/silent.json")):
     if len(sys.argv) > 1 and v["id"] not in sys.argv[1:]:
         continue
-    p = os.path.join("/repo", v["file"])
+    p = os.path.join(REPO, v["file"])
     s = open(p).read()
     if s.count(v["old"]) != 1:
         print(v["id"], "PATTERN matches", s.count(v["old"])); continue
@@ -25,4 +26,4 @@ for v in json.load(open(ROOT + "/selftest/silent.json")):
             if l.startswith("  obligation") or l.startswith("INCONCLUSIVE"):
                 print("      ", l.strip()[:230])
     finally:
-        subprocess.run(["git", "-C", "/repo", "checkout", "--", v["file"]])
+        subprocess.run(["git", "-C", REPO, "checkout", "--", v["file"]])
